@@ -431,6 +431,18 @@ func ruleC09R1(r *Run) {
 		"checkOnce runs only under valid < checks", "checkOnce is not guarded by valid < checks (loop facts: "+strings.Join(gl, "; ")+")")
 	r.Check("findBug#loop.invalid-bound", v.loop.Header.Instrs[0].Pos(), fInv,
 		fmt.Sprintf("checkOnce runs only under invalid < checks*%d", k), fmt.Sprintf("checkOnce is not guarded by invalid < checks*%d (loop facts: %s)", k, strings.Join(gl, "; ")))
+	// the bounded counters are the ones findBug reports: result #0 (valid) is the one compared with checks, result #1
+	// (invalid) the one compared with checks*k — two different counters
+	if v.validPhi != nil && v.invPhi != nil {
+		okPos := false
+		for _, ret := range returnsOf(v.fn) {
+			if len(ret.Results) >= 2 && p.resolve(p.res(ret, 0)) == ssa.Value(v.validPhi) && p.resolve(p.res(ret, 1)) == ssa.Value(v.invPhi) {
+				okPos = true
+			}
+		}
+		r.Check("findBug#loop.bounds-on-own-counters", v.loop.Header.Instrs[0].Pos(), v.validPhi != v.invPhi && okPos, "valid (result #0) is bounded by checks, invalid (result #1) by checks*k",
+			"the loop bounds are not on the counters findBug reports as (valid, invalid): "+strings.Join(gl, "; ")+" — e.g. with the skip budget tested on the valid counter a property that always skips is invoked without end instead of failing with 'only generated'")
+	}
 	for name, ph := range map[string]*ssa.Phi{"valid": v.validPhi, "invalid": v.invPhi} {
 		if ph == nil {
 			continue
